@@ -260,6 +260,15 @@ func availMB(dir string) uint64 {
 	return fs.Bavail * uint64(fs.Bsize) / 1024 / 1024
 }
 
+// freeMB is the free space including the blocks reserved for root (never what the disk check may use).
+func freeMB(dir string) uint64 {
+	var fs syscall.Statfs_t
+	if err := syscall.Statfs(dir, &fs); err != nil {
+		return 0
+	}
+	return fs.Bfree * uint64(fs.Bsize) / 1024 / 1024
+}
+
 func TestVerif_C04Pipe(t *testing.T) {
 	c := vStart(t, "C04", "TestVerif_C04Pipe")
 	defer c.Finish()
@@ -282,6 +291,7 @@ func TestVerif_C04Pipe(t *testing.T) {
 		{"window closed now", 0, hm(3 * time.Hour), hm(5 * time.Hour), false},
 		{"window closed now, spanning midnight side", 0, hm(2 * time.Hour), hm(-2 * time.Hour), false},
 		{"disk ok exactly at the boundary", 1, "12:00", "12:00", true},
+		{"min-disk-space between the space available and the space free including root-reserved blocks", -1, "12:00", "12:00", false},
 	}
 	for idx, v := range vs {
 		if !c.Mine(int64(idx)) {
@@ -293,23 +303,66 @@ func TestVerif_C04Pipe(t *testing.T) {
 			cfg.Constant = true
 			cfg.MinSecs, cfg.MaxSecs, cfg.PreviewSecs = 1, 2, 1
 			cfg.WindowStart, cfg.WindowStop = v.WinStart, v.WinStop
-			before := availMB(scratch)
-			cfg.MinDiskMB = uint64(v.DiskFactor * float64(before))
-			r, err := prepareConn(scratch, cfg, cam)
-			if err != nil {
-				c.Inconclusive("prepareConn: " + err.Error())
-				return
-			}
-			defer r.cleanup()
-			r.serve(pacedFeed(cam, frames, 2*time.Millisecond), nil)
-			after := availMB(scratch)
-			if r.Err != io.EOF {
-				c.Violation("pipeline-failed", v.Name, fmt.Sprintf("handleConn returned %v", r.Err))
-				return
-			}
-			if v.DiskFactor == 1 && before != after {
-				c.Inconclusive("free space changed during the boundary case")
-				return
+			// The boundary case compares the code's statfs reading with one taken by the harness; other
+			// processes use the same file system. Free space is therefore sampled around every frame's
+			// processing, an attempt during which any sample differs is void, and a disagreement only
+			// counts when it repeats on three attempts with steady free space.
+			var r *connRun
+			var before uint64
+			disagreements := 0
+			for attempt := 0; ; attempt++ {
+				before = availMB(scratch)
+				cfg.MinDiskMB = uint64(v.DiskFactor * float64(before))
+				if v.DiskFactor < 0 {
+					reserve := freeMB(scratch) - before
+					if freeMB(scratch) < before || reserve < 64 {
+						c.Count("file_systems_without_reserved_blocks", 1)
+						return
+					}
+					cfg.MinDiskMB = before + reserve/2
+					c.Count("runs_with_min_disk_inside_the_root_reserve", 1)
+				}
+				var err error
+				r, err = prepareConn(scratch, cfg, cam)
+				if err != nil {
+					c.Inconclusive("prepareConn: " + err.Error())
+					return
+				}
+				defer r.cleanup()
+				var moved int32
+				r.serve(pacedFeed(cam, frames, 2*time.Millisecond), func(name string) {
+					if v.DiskFactor == 1 && (name == "conn.frame.received" || name == "conn.frame.processed") && availMB(scratch) != before {
+						atomic.StoreInt32(&moved, 1)
+					}
+				})
+				if r.Err != io.EOF {
+					c.Violation("pipeline-failed", v.Name, fmt.Sprintf("handleConn returned %v", r.Err))
+					return
+				}
+				if v.DiskFactor != 1 {
+					break
+				}
+				if atomic.LoadInt32(&moved) == 1 || availMB(scratch) != before {
+					if attempt >= 5 {
+						c.Inconclusive("free space kept changing during the boundary case")
+						return
+					}
+					continue
+				}
+				expB, _ := expectRecordings(cfg, cam, frames)
+				wantB := 0
+				for _, e := range expB {
+					if !e.Open {
+						wantB++
+					}
+				}
+				if len(decodeDir(r.OutDir)) == wantB {
+					break
+				}
+				disagreements++
+				if disagreements >= 3 {
+					break
+				}
 			}
 			mfiles := decodeDir(r.OutDir)
 			cfiles := decodeDir(filepath.Join(r.OutDir, "constant-recordings"))
